@@ -79,15 +79,20 @@ def min_cut_brute(n, arcs, s, t):
     return best, best_s
 
 
-def edmonds_karp(n, arcs, s, t):
+def edmonds_karp(n, arcs, s, t, trace=None):
     """Reference Edmonds-Karp.  Returns (value, per-arc flow list, closed set S of the failing BFS,
-    used_reverse: some augmenting path went through a residual twin)."""
+    used_reverse: some augmenting path went through a residual twin).
+    trace: optional dict that receives {"augmentations", "reopened", "longest_path"}; reopened = number of arcs that were
+    saturated by one augmenting path, had flow taken off again over their twin by a later one, and were pushed forward again
+    by a still later one (the 'saturate, cancel, use again' pattern)."""
     assert s != t
     g = Residual(n)
     for a in arcs:
         g.add(a[0], a[1], a[2])
     value = 0
     used_reverse = False
+    stage = [0] * len(arcs)  # 0 fresh, 1 has been saturated, 2 then cancelled (partly), 3 then pushed forward again
+    n_aug = longest = 0
     while True:
         pe = {s: None}
         q = deque([s])
@@ -106,11 +111,21 @@ def edmonds_karp(n, arcs, s, t):
             path.append(pe[v])
             v = g.to[pe[v] ^ 1]
         d = min(g.cap[e] for e in path)
+        n_aug += 1
+        longest = max(longest, len(path))
         for e in path:
             if e & 1:
                 used_reverse = True
+                if stage[e >> 1] == 1:
+                    stage[e >> 1] = 2
+            elif stage[e >> 1] == 2:
+                stage[e >> 1] = 3
             g.push(e, d)
+            if not e & 1 and g.cap[e] == 0 and stage[e >> 1] == 0:
+                stage[e >> 1] = 1
         value += d
+    if trace is not None:
+        trace.update(augmentations=n_aug, reopened=sum(1 for x in stage if x == 3), longest_path=longest)
     flows = [g.cap[2 * k + 1] for k in range(len(arcs))]
     closed = sorted(pe)
     # self-check: the closed set is a saturated cut of that value
@@ -365,3 +380,236 @@ def assignment_brute(mat):
             if best is None or c < best:
                 best = c
     return best
+
+
+# ------------------------------------------------------------------- larger instances: cheap certifying oracles
+def mcf_spfa(n, arcs, supplies):
+    """Same contract as mcf_exact (successive shortest paths), with a queue-based Bellman-Ford, for networks with hundreds
+    of arcs.  Not trusted by itself: callers run certify_optimal / certify_infeasible on what it returns."""
+    assert sum(supplies) == 0
+    S, T = n, n + 1
+    N = n + 2
+    g = Residual(N)
+    for u, v, c, w in arcs:
+        g.add(u, v, c, w)
+    need = 0
+    for i, b in enumerate(supplies):
+        if b > 0:
+            g.add(S, i, b, 0)
+            need += b
+        elif b < 0:
+            g.add(i, T, -b, 0)
+    shipped = 0
+    while shipped < need:
+        dist = [INF] * N
+        pe = [None] * N
+        inq = [False] * N
+        pops = [0] * N
+        dist[S] = 0
+        q = deque([S])
+        while q:
+            u = q.popleft()
+            inq[u] = False
+            pops[u] += 1
+            if pops[u] > N:
+                raise ValueError("negative cycle in the residual network (instance outside the domain)")
+            du = dist[u]
+            for e in g.adj[u]:
+                if g.cap[e] > 0 and du + g.cost[e] < dist[g.to[e]]:
+                    dist[g.to[e]] = du + g.cost[e]
+                    pe[g.to[e]] = e
+                    if not inq[g.to[e]]:
+                        inq[g.to[e]] = True
+                        q.append(g.to[e])
+        if dist[T] == INF:
+            break
+        path = []
+        v = T
+        while v != S:
+            path.append(pe[v])
+            v = g.to[pe[v] ^ 1]
+        d = min(min(g.cap[e] for e in path), need - shipped)
+        for e in path:
+            g.push(e, d)
+        shipped += d
+    if shipped < need:
+        return {"status": "infeasible", "cut": sorted(x for x in g.reachable(S) if x < n)}
+    flow = [g.cap[2 * k + 1] for k in range(len(arcs))]
+    pi = residual_potentials(n, arcs, flow)
+    if pi is None:
+        raise AssertionError("reference SSP ended with a negative residual cycle")
+    return {"status": "optimal", "cost": sum(f * a[3] for f, a in zip(flow, arcs)), "flow": flow, "pi": pi}
+
+
+def residual_potentials(n, arcs, flow):
+    """Shortest distances from a virtual root (0 to every node) in the residual network of a per-arc flow, or None when
+    that network has a negative-cost cycle.  (They are node potentials that satisfy complementary slackness.)"""
+    radj = [[] for _ in range(n)]
+    for k, (u, v, c, w) in enumerate(arcs):
+        if flow[k] < c:
+            radj[u].append((v, w))
+        if flow[k] > 0:
+            radj[v].append((u, -w))
+    pi = [0] * n
+    inq = [True] * n
+    pops = [0] * n
+    q = deque(range(n))
+    while q:
+        u = q.popleft()
+        inq[u] = False
+        pops[u] += 1
+        if pops[u] > n + 1:
+            return None
+        for v, w in radj[u]:
+            if pi[u] + w < pi[v]:
+                pi[v] = pi[u] + w
+                if not inq[v]:
+                    inq[v] = True
+                    q.append(v)
+    return pi
+
+
+def split_pooled(arcs, fl):
+    """Per-arc flow list for a solver's pooled {(u,v): f}: parallel arcs are filled cheapest first (the cheapest reading of the
+    pooled value).  Precondition: pooled_flow_defects(...) is empty."""
+    groups = {}
+    for k, (u, v, c, w) in enumerate(arcs):
+        groups.setdefault((u, v), []).append((w, k, c))
+    flow = [0] * len(arcs)
+    for key, f in fl.items():
+        left = int(f)
+        for w, k, c in sorted(groups.get(key, [])):
+            x = min(c, left)
+            flow[k] = x
+            left -= x
+        assert left == 0, "pooled value exceeds the pooled capacity"
+    return flow
+
+
+def negative_residual_cycle(n, arcs, flow):
+    """Optimality certificate for a *given* feasible per-arc flow: a feasible flow is of minimum cost iff its residual
+    network has no negative-cost cycle.  Returns None (optimal) or (gain, [(u, v, +1|-1 direction, cost)...]) - a residual
+    cycle of total cost gain < 0 along which one unit can be rerouted."""
+    if residual_potentials(n, arcs, flow) is not None:
+        return None
+    # find one explicitly (Bellman-Ford with parent pointers, n rounds, then walk back n steps)
+    res = []
+    for k, (u, v, c, w) in enumerate(arcs):
+        if flow[k] < c:
+            res.append((u, v, w, 1))
+        if flow[k] > 0:
+            res.append((v, u, -w, -1))
+    d = [0] * n
+    par = [None] * n
+    x = None
+    for _ in range(n):
+        x = None
+        for e in res:
+            if d[e[0]] + e[2] < d[e[1]]:
+                d[e[1]] = d[e[0]] + e[2]
+                par[e[1]] = e
+                x = e[1]
+        if x is None:
+            break
+    assert x is not None
+    for _ in range(n):
+        x = par[x][0]
+    cyc = []
+    y = x
+    while True:
+        e = par[y]
+        cyc.append(e)
+        y = e[0]
+        if y == x:
+            break
+    cyc.reverse()
+    gain = sum(e[2] for e in cyc)
+    assert gain < 0
+    return gain, [(e[0], e[1], e[3], e[2]) for e in cyc]
+
+
+def hungarian(mat):
+    """Minimum-cost assignment of every row to a distinct column (rows <= columns), O(n^2 m), integer arithmetic.
+    Returns (cost, col_of_row, u, v) with dual potentials; certify_assignment checks them."""
+    n = len(mat)
+    m = len(mat[0]) if n else 0
+    assert n <= m
+    u = [0] * (n + 1)
+    v = [0] * (m + 1)
+    p = [0] * (m + 1)  # p[j] = row matched to column j (1-based, 0 = none)
+    way = [0] * (m + 1)
+    for i in range(1, n + 1):
+        p[0] = i
+        j0 = 0
+        minv = [INF] * (m + 1)
+        used = [False] * (m + 1)
+        while True:
+            used[j0] = True
+            i0 = p[j0]
+            delta = INF
+            j1 = 0
+            for j in range(1, m + 1):
+                if not used[j]:
+                    cur = mat[i0 - 1][j - 1] - u[i0] - v[j]
+                    if cur < minv[j]:
+                        minv[j] = cur
+                        way[j] = j0
+                    if minv[j] < delta:
+                        delta = minv[j]
+                        j1 = j
+            for j in range(m + 1):
+                if used[j]:
+                    u[p[j]] += delta
+                    v[j] -= delta
+                else:
+                    minv[j] -= delta
+            j0 = j1
+            if p[j0] == 0:
+                break
+        while True:
+            j1 = way[j0]
+            p[j0] = p[j1]
+            j0 = j1
+            if j0 == 0:
+                break
+    col = [-1] * n
+    for j in range(1, m + 1):
+        if p[j]:
+            col[p[j] - 1] = j - 1
+    cost = sum(mat[i][col[i]] for i in range(n))
+    return cost, col, u[1:], v[1:]
+
+
+def certify_assignment(mat, col, u, v):
+    """LP duality for 'every row to a distinct column' (rows <= columns): u_i + v_j <= c_ij, v_j <= 0, v_j = 0 on unused
+    columns, equality on assigned cells  =>  the assignment is optimal.  Returns list of defects."""
+    n = len(mat)
+    m = len(mat[0]) if n else 0
+    bad = []
+    if sorted(set(col)) != sorted(col) or any(not (0 <= j < m) for j in col) or len(col) != n:
+        return [f"{col} is not an assignment of every row to a distinct column"]
+    used = set(col)
+    for j in range(m):
+        if v[j] > 0 or (j not in used and v[j] != 0):
+            bad.append(f"column dual v[{j}]={v[j]}")
+    for i in range(n):
+        for j in range(m):
+            if u[i] + v[j] > mat[i][j]:
+                bad.append(f"dual infeasible at ({i},{j})")
+        if u[i] + v[col[i]] != mat[i][col[i]]:
+            bad.append(f"slack on assigned cell ({i},{col[i]})")
+    return bad[:5]
+
+
+def assignment_optimum(mat):
+    """Optimal value of solve_assignment's problem (min(n,m) rows to distinct columns) for any shape, certified."""
+    n = len(mat)
+    m = len(mat[0]) if n else 0
+    if n == 0 or m == 0:
+        return 0
+    a = [list(r) for r in mat] if n <= m else [[mat[i][j] for i in range(n)] for j in range(m)]
+    cost, col, u, v = hungarian(a)
+    bad = certify_assignment(a, col, u, v)
+    if bad:
+        raise AssertionError(f"hungarian reference lost its certificate: {bad}")
+    return cost
